@@ -7,13 +7,16 @@ EXTENDS SoloMachine
 CONSTANT MaxSeq
 VARIABLES S, acc
 
-Kinds == <<"Header", "VM", "VNM", "Misb", "KeyRotated", "SameTs", "RawMisb">>
+Kinds == <<"Header", "VM", "VNM", "Misb", "KeyRotated", "SameTs", "RawMisb", "ZeroHeight", "KeepAlive", "MisbConsumed">>
 Idx(n) == CHOOSE i \in DOMAIN Kinds : Kinds[i] = n
 W(n) == IF TLCGet(Idx(n)) = 0 THEN TLCSet(Idx(n), 1) /\ PrintT(<<"WITNESS", n>>) ELSE TRUE
 Witness(S0, a) == /\ W(a.a)
                   /\ (a.a = "Header" /\ a.npk # S0.pk => W("KeyRotated"))
                   /\ (IsVerif(a) /\ a.ts = S0.ts => W("SameTs"))
                   /\ (a.a = "Misb" /\ a.pform = "raw" => W("RawMisb"))
+                  /\ (HasPh(a) /\ a.ph = 0 => W("ZeroHeight"))
+                  /\ (a.a = "Header" /\ a.npk = S0.pk /\ a.ndiv = S0.div /\ a.ts = S0.ts => W("KeepAlive"))
+                  /\ (a.a = "Misb" /\ a.seq < S0.seq => W("MisbConsumed"))
 
 Init == S = InitState /\ acc = {} /\ \A i \in DOMAIN Kinds : TLCSet(i, 0)
 Next == \E a \in OkVerifs(S) \cup OkMisbs(S) :
@@ -26,8 +29,9 @@ Bound == S.seq <= MaxSeq
 \* every action that presents an already accepted signature, with any message fields
 Replays(s) ==
        { [a |-> "Header", sig |-> s, ts |-> t, npk |-> n, ndiv |-> d] : t \in 1..MaxTs, n \in KEYS, d \in DIVS }
-  \cup { [a |-> "VM", sig |-> s, ts |-> t, path |-> p, data |-> d, plen |-> 2] : t \in 1..MaxTs, p \in PATHS, d \in DATA \cup {NoData} }
-  \cup { [a |-> "VNM", sig |-> s, ts |-> t, path |-> p, plen |-> 2] : t \in 1..MaxTs, p \in PATHS }
+  \cup { [a |-> "VM", sig |-> s, ts |-> t, path |-> p, data |-> d, plen |-> 2, ph |-> h]
+         : t \in 1..MaxTs, p \in PATHS, d \in DATA \cup {NoData}, h \in {0, s.seq, S.seq} }
+  \cup { [a |-> "VNM", sig |-> s, ts |-> t, path |-> p, plen |-> 2, ph |-> h] : t \in 1..MaxTs, p \in PATHS, h \in {0, s.seq, S.seq} }
 
 TypeOK == S.seq \in Nat /\ S.ts \in 1..MaxTs /\ S.pk \in KEYS /\ S.div \in DIVS /\ S.frozen \in BOOLEAN
 AcceptedAreStale  == \A s \in acc : s.seq < S.seq
